@@ -75,6 +75,7 @@ def wireOps : List (String × (Tables → R String)) := [
         let full := (encodeTx r t.hasSegwit).length
         let stripped := (encodeTx r false).length
         pure s!"{full} {(3 * stripped + full + 3) / 4}"))),
+  ("s:raw", fun _ => do let xs ← get; set ([] : List String); pure (" ".intercalate xs)),
   ("s:echo", fun _ => do let xs ← get; set ([] : List String); pure (" ".intercalate ("ok" :: xs))),
   ("sha256", fun _ => do let b ← bytes; pure ("ok " ++ hex (Crypto.sha256 b)))
 ]
